@@ -308,7 +308,7 @@ func judge(in []pobj, manifest string, hooks []hookView, uninst []string, uninst
 		where := fmt.Sprintf("manifest x%d, hooks x%d", c.actM, c.actH)
 		switch {
 		case exp == 0 && c.expD > 0:
-			add("unknown-event-hook-kept", "%s from %s names an unknown hook event but is in the release (%s)", o.id(), o.Path, where)
+			add("unknown-event-hook-kept", "%s from %s carries a hook annotation that names an unknown event or no event at all, but is in the release (%s)", o.id(), o.Path, where)
 		case exp == 0 && c.expN > 0:
 			add(strings.Replace(o.Dest, "never:", "", 1)+"-applied", "%s from %s must never be applied but is in the release (%s)", o.id(), o.Path, where)
 		case exp == 0 && inputIDs[o.id()]:
